@@ -27,6 +27,12 @@ pub fn translate_target(idx: &Index, reg: &Registry, t: &Target, texts: &BTreeMa
         TargetKind::Struct => translate_struct(idx, reg, t),
         TargetKind::Enum => translate_enum(idx, reg, t),
         TargetKind::Const => translate_const(idx, reg, t),
+        TargetKind::Extern => {
+            if idx.find_fn(&t.rust_path).len() != 1 {
+                return Err(format!("extern function `{}` not found (or ambiguous)", t.rust_path));
+            }
+            Ok(format!("-- calls of Rust `{}` are mapped to `{}` (see DESIGN.md section 11, externs)\n", t.rust_path, t.lean_name))
+        }
     }
 }
 
@@ -54,6 +60,8 @@ fn new_tr<'a>(idx: &'a Index, reg: &'a Registry, cur: &'a FnEntry) -> Tr<'a> {
         loop_count: 0,
         lean_name: String::new(),
         betas: Vec::new(),
+        mut_ref_params: Vec::new(),
+        ptr_alias: HashMap::new(),
     }
 }
 
@@ -161,8 +169,16 @@ fn translate_fn(idx: &Index, reg: &Registry, t: &Target, texts: &BTreeMap<String
                 params.push(("self".into(), Ty::Adt(st)));
             }
             syn::FnArg::Typed(pt) => {
-                if matches!(&*pt.ty, syn::Type::Reference(r) if r.mutability.is_some()) {
-                    return Err("`&mut` parameter".into());
+                if let syn::Type::Reference(r) = &*pt.ty {
+                    // `&mut [T]` is read as the slice value (no write through it is supported: see assign_place)
+                    if r.mutability.is_some() && !matches!(&*r.elem, syn::Type::Slice(_)) {
+                        return Err("`&mut` parameter that is not a slice".into());
+                    }
+                    if r.mutability.is_some() {
+                        if let Pat::Ident(pi) = &*pt.pat {
+                            tr.mut_ref_params.push(pi.ident.to_string());
+                        }
+                    }
                 }
                 let ty = tr.conv_ty(&pt.ty);
                 match &*pt.pat {
